@@ -394,6 +394,7 @@ func (w *world) run(c Case, res *vf.Result, hits *[]interface{}) []stepRes {
 		}
 	}()
 	var out []stepRes
+	lastObs := w.abstractDB(db.dump(), bc.CurrentBlock().Hash())
 	addHit := func(what string, step, crash int, note string) {
 		res.Count("ORACLE " + what)
 		*hits = append(*hits, hitT{What: what, Case: c, Step: step, Crash: crash, Note: note})
@@ -439,7 +440,52 @@ func (w *world) run(c Case, res *vf.Result, hits *[]interface{}) []stepRes {
 			mids = append(mids, mid)
 		}
 		db.log, db.snaps = nil, nil
+		prevObs := lastObs
 		sr.Obs = w.abstractDB(db.dump(), bc.CurrentBlock().Hash())
+		lastObs = sr.Obs
+		// outcome classes of the batch, read off the implementation's own writes
+		{
+			old := map[uint64]uint64{}
+			for _, p := range prevObs.Canon {
+				old[p[0]] = p[1]
+			}
+			replaced, stored, heads := 0, 0, 0
+			for _, wl := range sr.Log {
+				for _, e := range wl {
+					var a, b uint64
+					if n, _ := fmt.Sscanf(e, "WCanon %d %d", &a, &b); n == 2 {
+						if o, ok := old[a]; ok && o != b {
+							replaced++
+						}
+					}
+					if strings.HasPrefix(e, "WHdr") {
+						stored++
+					}
+					if strings.HasPrefix(e, "WHeadB") {
+						heads++
+					}
+				}
+			}
+			numOf := func(id uint64) uint64 { return w.byID[id].NumberU64() }
+			switch {
+			case sr.Err == eNone && len(sr.Log) == 0:
+				res.Count("batch: nothing written (known / future / empty)")
+			case stored > 0 && heads == 0:
+				res.Count("batch: stored as side chain only")
+			case replaced > 0 && numOf(sr.Obs.Head) < numOf(prevObs.Head):
+				res.Count("batch: reorg to a shorter fork")
+			case replaced > 0:
+				res.Count("batch: reorg replacing canonical entries")
+			case heads > 0:
+				res.Count("batch: head extended")
+			}
+			for _, i := range ix {
+				if w.specs[i].HV == hvFuture {
+					res.Count("batch containing a future block")
+					break
+				}
+			}
+		}
 		if sr.Err == ePanic {
 			panicked = true
 			addHit("panic during import", j, 0, sr.Panic)
@@ -488,8 +534,8 @@ func (w *world) run(c Case, res *vf.Result, hits *[]interface{}) []stepRes {
 			if cr.Mid {
 				res.Count("crash-points in head switch")
 			}
-			if cr.Head != sr.Obs.Head {
-				res.Count("crash-points where the restarted head differs from the crash-free head")
+			if len(w.judge(cbc, cdb)) == 0 && cr.Head != prevObs.Head && cr.Head != sr.Obs.Head {
+				res.Count("crash-points restarting consistent on an intermediate head")
 			}
 			var pm string
 			cpanic := false
@@ -768,7 +814,96 @@ func pathTo(tree []BlockSpec, x, l int) []int {
 	return p
 }
 
+// competing forks: a trunk, then one or two forks offered in pieces so that they
+// are first stored as side chains and later adopted
+func forkCase(r *vf.Rng, res *vf.Result) Case {
+	var c Case
+	uniq := r.Chance(50)
+	add := func(parent int) int {
+		i := len(c.Tree)
+		s := BlockSpec{Parent: parent, Salt: i + 1}
+		if uniq {
+			s.Txs = append(s.Txs, 1000+i)
+		}
+		if r.Chance(50) {
+			for k := 0; k <= r.Intn(2); k++ {
+				s.Txs = append(s.Txs, 1+r.Intn(3))
+			}
+		}
+		c.Tree = append(c.Tree, s)
+		return i
+	}
+	L := 1 + r.Intn(4)
+	trunk := []int{}
+	p := -1
+	for i := 0; i < L; i++ {
+		p = add(p)
+		trunk = append(trunk, p)
+	}
+	c.Batches = append(c.Batches, trunk)
+	for f := 0; f <= r.Intn(2) && len(c.Tree) < 11; f++ {
+		d := r.Intn(L+1) - 1 // fork point: index into trunk, -1 = genesis
+		p = -1
+		if d >= 0 {
+			p = trunk[d]
+		}
+		F := 1 + r.Intn(L-d+1)
+		var fork []int
+		for i := 0; i < F && len(c.Tree) < 12 && depthOf2(c.Tree, p) < 8; i++ {
+			p = add(p)
+			fork = append(fork, p)
+		}
+		if len(fork) == 0 {
+			continue
+		}
+		// offered in growing pieces, sometimes with the shared trunk in front
+		for k := 1 + r.Intn(len(fork)); ; k += 1 + r.Intn(2) {
+			if k > len(fork) {
+				k = len(fork)
+			}
+			piece := append([]int{}, fork[:k]...)
+			if r.Chance(30) && d >= 0 {
+				piece = append(append([]int{}, trunk[:d+1]...), piece...)
+			}
+			c.Batches = append(c.Batches, piece)
+			if k == len(fork) {
+				break
+			}
+		}
+		if r.Chance(40) {
+			c.Batches = append(c.Batches, trunk[r.Intn(len(trunk)):])
+		}
+	}
+	if r.Chance(25) {
+		i := r.Intn(len(c.Tree))
+		if r.Bool() {
+			c.Tree[i].HV = 1 + r.Intn(3)
+		} else {
+			c.Tree[i].BV = 1 + r.Intn(4)
+		}
+		res.Count("tree with invalid or future blocks")
+	}
+	res.Count("tree with forks")
+	res.Count("competing-forks case")
+	if uniq {
+		res.Count("tree with pairwise distinct state roots")
+	} else {
+		res.Count("tree with shared state roots")
+	}
+	return c
+}
+
+func depthOf2(tree []BlockSpec, i int) int {
+	if i < 0 {
+		return 0
+	}
+	return depthOf(tree, i)
+}
+
 func randCase(r *vf.Rng, res *vf.Result) Case {
+	if r.Chance(35) {
+		return forkCase(r, res)
+	}
 	var c Case
 	nb := 1 + r.Intn(4)
 	switch r.Intn(10) {
